@@ -80,6 +80,23 @@ def goodPath (c : Cfg) (s : Store) (x : Nat) : T → Bool
 
 def hasGoodTree (c : Cfg) (s : Store) (x : Nat) : Bool := (trees c s).any (goodPath c s x)
 
+/-- the sequence of pops of the traversal for query vector `qv` (for failure reports) -/
+def popLog (c : Cfg) (s : Store) (qv : List Nat) : Nat → List (Nat × NodeId) → List (Nat × NodeId × String)
+  | 0, _ => []
+  | fuel+1, queue =>
+    match Reader.popMax queue with
+    | none => []
+    | some ((dist, node), queue') =>
+      match s.get ⟨c.index, node.mode, node.item⟩ with
+      | some (.split l r normal) =>
+        let margin0 := if c.metric.isZero normal then F32.zero else c.metric.margin c.host normal qv
+        let margin := if F32.isNaN margin0 then F32.zero else margin0
+        (dist, node, s!"split margin={margin} zero={c.metric.isZero normal}") ::
+          popLog c s qv fuel ((Metric.pqDistance dist margin true, r) :: (Metric.pqDistance dist margin false, l) :: queue')
+      | some (.desc ids) => [(dist, node, s!"bucket {ids}")]
+      | some (.leaf _ _) => [(dist, node, "leaf")]
+      | _ => [(dist, node, "?")]
+
 /-- exact nearest neighbours by brute force over the stored leaves: (score, id) ascending -/
 def bruteForce (c : Cfg) (s : Store) (qh qv : List Nat) (filter : Option (List Nat)) : List (Nat × Nat) :=
   let leaves := (s.prefixIter c.index (some modeItem)).filterMap fun kv =>
